@@ -4,7 +4,8 @@ The lifecycle code is control flow, not data, so this module mostly checks `ast`
 (fail-closed) and emits the few facts the Gallina model is parametric in:
   * is a context recorded in `_exits` after (true) or before (false) `__aenter__` completed,
   * are the recorded exits walked in `reversed(...)` order, are teardown errors collected,
-  * the phase sequence of BaseRunner.cleanup() (pre_shutdown / on_shutdown / Server.shutdown / app cleanup),
+  * the phase sequence of BaseRunner.cleanup() (pre_shutdown / on_shutdown / Server.shutdown / app cleanup)
+    and whether the phases are chained by try/finally,
   * is `runner.setup()` inside run_app's try/finally,
   * number of `ceil_timeout(timeout)` phases in RequestHandler.shutdown, ceil_timeout's threshold,
   * whether data_received drops data once close() was called.
@@ -17,7 +18,7 @@ from . import core
 from .core import TranslatorError
 
 OUTPUT = "LifecycleGen.v"
-ITEMS = ["record_after_enter", "exits_reversed", "exit_errors_collected", "ctx receiver registered first",
+ITEMS = ["runner_cleanup_finally", "record_after_enter", "exits_reversed", "exit_errors_collected", "ctx receiver registered first",
          "Application.cleanup shape", "AppRunner._make_server shape", "runner_cleanup_seq",
          "run_app_setup_in_try", "Server.pre_shutdown/shutdown shape", "shutdown_phases",
          "close/force_close shape", "drops_data_when_closing", "ceil_threshold_ms"]
@@ -157,32 +158,73 @@ def _app_init():
 
 
 def _runner_cleanup():
+    """Two recognised shapes of BaseRunner.cleanup() after the sites are stopped:
+      plain  : if self._server: [sleep(0); pre_shutdown(); await self.shutdown(); await self._server.shutdown(t)]
+               await self._cleanup_server()
+      finally: try: if self._server: [sleep(0); pre_shutdown(); try: await self.shutdown()
+                                                                 finally: await self._server.shutdown(t)]
+               finally: await self._cleanup_server()
+    Returns (phase sequence, later phases run although an earlier one raised)."""
     fn = core.find_function(RUN, "cleanup", cls="BaseRunner")
     b = _body(fn)
     if len(b) < 3:
         raise TranslatorError("BaseRunner.cleanup: too short")
     if not (isinstance(b[0], ast.For) and _u(b[0].iter) == "list(self._sites)" and [_u(s) for s in b[0].body] == ["await site.stop()"]):
         raise TranslatorError("BaseRunner.cleanup: first statement must stop every site")
-    names = {"self._server.pre_shutdown()": 1, "await self.shutdown()": 2,
-             "await self._server.shutdown(self._shutdown_timeout)": 3, "await self._cleanup_server()": 4}
-    seq = []
-    rest = b[1:]
-    i = 0
-    if isinstance(rest[0], ast.If):
-        if _u(rest[0].test) != "self._server" or rest[0].orelse:
+    PRE, SIG, SRV, CLEAN = ("self._server.pre_shutdown()", "await self.shutdown()",
+                            "await self._server.shutdown(self._shutdown_timeout)", "await self._cleanup_server()")
+    names = {PRE: 1, SIG: 2, SRV: 3}
+
+    def server_block(node):
+        if not (isinstance(node, ast.If) and _u(node.test) == "self._server" and not node.orelse):
             raise TranslatorError("BaseRunner.cleanup: expected `if self._server:` without else")
-        for s in rest[0].body:
-            t = _u(s)
-            if t == "await asyncio.sleep(0)":
+        return node.body
+
+    rest = b[1:]
+    if isinstance(rest[0], ast.Try):
+        t = rest[0]
+        if t.handlers or t.orelse or [_u(s) for s in t.finalbody] != [CLEAN] or len(t.body) != 1:
+            raise TranslatorError("BaseRunner.cleanup: outer try must be `try: if self._server: ... finally: await self._cleanup_server()`")
+        seq = []
+        protected = None
+        for s in server_block(t.body[0]):
+            txt = _u(s)
+            if txt == "await asyncio.sleep(0)":
                 continue
-            if t not in names or names[t] == 4:
-                raise TranslatorError(f"BaseRunner.cleanup: unrecognised statement under `if self._server`: {t!r}")
-            seq.append(names[t])
+            if isinstance(s, ast.Try):
+                if s.handlers or s.orelse or [_u(x) for x in s.body] != [SIG] or [_u(x) for x in s.finalbody] != [SRV]:
+                    raise TranslatorError("BaseRunner.cleanup: inner try must be `try: await self.shutdown() finally: await self._server.shutdown(...)`")
+                if protected is not None:
+                    raise TranslatorError("BaseRunner.cleanup: two inner try blocks")
+                protected = True
+                seq += [2, 3]
+            elif txt == PRE:
+                seq.append(1)
+            else:
+                raise TranslatorError(f"BaseRunner.cleanup: unrecognised statement under `if self._server`: {txt!r}")
+        if not protected:
+            raise TranslatorError("BaseRunner.cleanup: outer finally without the inner try/finally is not a recognised shape")
+        seq.append(4)
+        fin = True
         i = 1
-    if i >= len(rest) or _u(rest[i]) != "await self._cleanup_server()":
-        raise TranslatorError("BaseRunner.cleanup: `await self._cleanup_server()` must follow the server block unconditionally")
-    seq.append(4)
-    tail = [_u(s) for s in rest[i + 1:]]
+    else:
+        seq = []
+        i = 0
+        if isinstance(rest[0], ast.If):
+            for s in server_block(rest[0]):
+                txt = _u(s)
+                if txt == "await asyncio.sleep(0)":
+                    continue
+                if txt not in names:
+                    raise TranslatorError(f"BaseRunner.cleanup: unrecognised statement under `if self._server`: {txt!r}")
+                seq.append(names[txt])
+            i = 1
+        if i >= len(rest) or _u(rest[i]) != CLEAN:
+            raise TranslatorError("BaseRunner.cleanup: `await self._cleanup_server()` must follow the server block unconditionally")
+        seq.append(4)
+        fin = False
+        i += 1
+    tail = [_u(s) for s in rest[i:]]
     if not tail or tail[0] != "self._server = None":
         raise TranslatorError("BaseRunner.cleanup: expected `self._server = None` after _cleanup_server")
     for t in tail[1:]:
@@ -194,7 +236,7 @@ def _runner_cleanup():
     _same(RUN, "_cleanup_server", "AppRunner", "async def _cleanup_server(self):\n    await self._app.cleanup()")
     _same(APP, "shutdown", "Application", "async def shutdown(self):\n    await self.on_shutdown.send(self)")
     _same(APP, "startup", "Application", "async def startup(self):\n    await self.on_startup.send(self)")
-    return seq
+    return seq, fin
 
 
 def _make_server():
@@ -300,7 +342,7 @@ def generate() -> str:
           "async def cleanup(self):\n    if self.on_cleanup.frozen:\n        await self.on_cleanup.send(self)\n"
           "    else:\n        await self._cleanup_ctx._on_cleanup(self)")
     _make_server()
-    seq = _runner_cleanup()
+    seq, fin = _runner_cleanup()
     intry = _run_app()
     _server()
     drops, phases = _protocol()
@@ -311,7 +353,10 @@ def generate() -> str:
                f"Definition exits_reversed : bool := {b(rev)}.\nDefinition exit_errors_collected : bool := {b(coll)}.\n")
     out.append("(* web_runner.BaseRunner.cleanup after the sites are stopped: 1 = Server.pre_shutdown, 2 = on_shutdown signal,\n"
                "   3 = Server.shutdown(timeout) (only when setup succeeded), 4 = _cleanup_server (always) *)\n"
-               f"Definition runner_cleanup_seq : list N := {core.coq_N_list(seq)}.\n")
+               f"Definition runner_cleanup_seq : list N := {core.coq_N_list(seq)}.\n"
+               "(* the phases are chained by try/finally: a later phase still runs when an earlier one raised, and the\n"
+               "   exception leaving cleanup() is the last one raised *)\n"
+               f"Definition runner_cleanup_finally : bool := {b(fin)}.\n")
     out.append("(* web._run_app: `await runner.setup()` is the first statement inside try/finally: runner.cleanup() *)\n"
                f"Definition run_app_setup_in_try : bool := {b(intry)}.\n")
     out.append("(* web_protocol.RequestHandler.shutdown: number of `async with ceil_timeout(timeout)` waits before the task is cancelled *)\n"
